@@ -121,6 +121,11 @@ class Term:
         # Now copy the content of t onto self
         self.__dict__.update(t.__dict__)
 
+        # The identity used by the fast path of __eq__ and by the caches of subst,
+        # subst_bound, ... must be that of the new object: the id of t may be given
+        # to another object once t is freed.
+        self._id = id(self)
+
     def is_svar(self) -> bool:
         return self.ty == Term.SVAR
 
